@@ -96,6 +96,18 @@ func RandCNF(r *rand.Rand, n, m, maxLen int, dirty bool) [][]int {
 	return res
 }
 
+// RandKSAT returns m clauses of exactly k distinct variables over 1..n (k <= n).
+func RandKSAT(r *rand.Rand, n, m, k int) [][]int {
+	if k > n {
+		k = n
+	}
+	res := make([][]int, 0, m)
+	for i := 0; i < m; i++ {
+		res = append(res, RandClause(r, n, k, true))
+	}
+	return res
+}
+
 func ClauseCtors(clauses [][]int) []M {
 	res := make([]M, len(clauses))
 	for i, c := range clauses {
